@@ -3,11 +3,30 @@ import concurrent.futures, glob, os, re, shutil, subprocess, tempfile
 import vlib
 
 PROP = "C11"
-SIZES = {"quick": [10, 16383, 16385], "thorough": [0, 10, 4095, 16383, 16384, 16385, 40000]}
-NS = {"quick": [0, 1, 3], "thorough": [0, 1, 2, 3, 5]}
-CFGS = ["fluent", "nested", "oneline", "ini"]
-SINKS = ["file", "rotbig", "rotsmall", "rotdaily"]
+CFGS = ["fluent", "nested", "oneline", "ini", "brokenfirst", "fullfirst", "twofiles", "stderrfirst"]
+SINKS = ["file", "rotbig", "rot1", "rot2", "rotdaily"]
 THREADS = ["main", "sec"]
+TYPES = ["debug", "warning", "info"]
+
+
+def histories(tier):
+    """record-length sequences; the last length is the fatal record's"""
+    small = [8, 9, 10] if tier == "quick" else [8, 9, 10, 11, 12]
+    maxn = 2 if tier == "quick" else 3
+    out = set()
+    cur = [()]
+    for n in range(maxn + 1):                       # every sequence of n preceding small records x every small fatal record
+        for pre in cur:
+            for f in small:
+                out.add(pre + (f,))
+        cur = [p + (x,) for p in cur for x in small]
+    big = [16383, 16385] if tier == "quick" else [4095, 16383, 16384, 16385, 40000]
+    for b in big:                                   # around QFile's 16 KiB write buffer
+        for n in ((0, 1, 3) if tier == "quick" else (0, 1, 2, 3, 5)):
+            out.add((b,) * n + (b,))
+            out.add((b,) * n + (8,))
+            out.add((8,) * n + (b,))
+    return sorted(out, key=lambda h: (len(h), h))
 
 
 def build():
@@ -20,37 +39,51 @@ def rot_key(name):
     return (m.group(1), int(m.group(2)))
 
 
+def rec_text(i, ln, fatal):
+    t = (b"FATAL" if fatal else b"r%d" % i) + b":"
+    return t + b"x" * max(0, ln - len(t))
+
+
+def read_all(d, base):
+    rot = sorted([os.path.basename(p) for p in glob.glob(os.path.join(d, base + ".*.log"))], key=rot_key) if base == "app" else []
+    text = b""
+    for f in rot + [base + ".log"]:
+        p = os.path.join(d, f)
+        if os.path.exists(p):
+            text += open(p, "rb").read()
+    return text, len(rot) + 1
+
+
 def one(exe, root, case):
-    cfg, sink, thr, n, size = case
+    cfg, sink, thr, lens = case
     d = tempfile.mkdtemp(prefix="c11-", dir=root)
     try:
-        r = subprocess.run([exe, d, cfg, sink, thr, str(n), str(size)], capture_output=True, timeout=60,
+        r = subprocess.run([exe, d, cfg, sink, thr, ",".join(map(str, lens))], capture_output=True, timeout=60,
                            env=dict(os.environ, LC_ALL="C.UTF-8", TZ="UTC", QT_LOGGING_RULES="", QT_MESSAGE_PATTERN="", QT_FATAL_WARNINGS=""))
-        res = {"case": {"cfg": cfg, "sink": sink, "thread": thr, "n": n, "size": size}, "rc": r.returncode}
+        res = {"case": {"cfg": cfg, "sink": sink, "thread": thr, "lens": list(lens)}, "rc": r.returncode}
         if r.returncode != -6:
             res["engine"] = "child did not die by SIGABRT (rc=%d) %s" % (r.returncode, r.stderr[-300:].decode("utf-8", "replace"))
             return res
-        rot = sorted([os.path.basename(p) for p in glob.glob(os.path.join(d, "app.*.log"))], key=rot_key)
-        text = b""
-        for f in rot + ["app.log"]:
-            p = os.path.join(d, f)
-            if os.path.exists(p):
-                text += open(p, "rb").read()
-        pay = b"x" * size
-        expect = [b"m%d:%s" % (i, pay) for i in range(n)] + [b"FATAL:" + pay]
-        pos, missing = 0, []
-        for i, e in enumerate(expect):
-            k = text.find(e + b"\n", pos) if cfg != "oneline" else text.find(e, pos)
-            if k < 0:
-                missing.append("the fatal message" if i == n else "message %d" % i)
-            else:
-                pos = k + len(e)
-        lines = text.count(b"\n")
-        res["missing"] = missing
-        res["files"] = len(rot) + 1
-        res["bytes"] = len(text)
-        if not missing and lines != n + 1:
-            res["missing"] = ["(line count %d != %d: duplicated or split records)" % (lines, n + 1)]
+        n = len(lens) - 1
+        expect = [rec_text(i, lens[i], False) for i in range(n)] + [rec_text(0, lens[-1], True)]
+        res["missing"] = []
+        res["files"] = 0
+        res["bytes"] = 0
+        for base in (["app", "second"] if cfg == "twofiles" else ["app"]):
+            text, nfiles = read_all(d, base)
+            pos, missing = 0, []
+            for i, e in enumerate(expect):
+                k = text.find(e + b"\n", pos) if cfg != "oneline" else text.find(e, pos)
+                if k < 0:
+                    missing.append(("the fatal message" if i == n else "message %d" % i) + (" (in %s.log)" % base if base != "app" else ""))
+                else:
+                    pos = k + len(e)
+            lines = text.count(b"\n")
+            res["missing"] += missing
+            res["files"] += nfiles
+            res["bytes"] += len(text)
+            if not missing and lines != n + 1:
+                res["missing"].append("(line count %d != %d in %s.log: duplicated or split records)" % (lines, n + 1, base))
         return res
     finally:
         shutil.rmtree(d, ignore_errors=True)
@@ -59,7 +92,9 @@ def one(exe, root, case):
 def run(tier):
     t = vlib.Timer()
     exe = build()
-    cases = [(c, s, th, n, sz) for c in CFGS for s in SINKS for th in THREADS for n in NS[tier] for sz in SIZES[tier]]
+    hs = histories(tier)
+    cases = [(c, s, th, h) for c in CFGS for s in SINKS for th in THREADS for h in hs
+             if not (len(h) > 1 and max(h) > 1000 and (c not in ("fluent", "oneline") or s in ("rot2", "rotdaily")))]   # the big-record family on a reduced product
     root = tempfile.mkdtemp(prefix="verif-c11-", dir="/dev/shm")
     try:
         with concurrent.futures.ThreadPoolExecutor(max_workers=vlib.NCPU) as ex:
@@ -74,15 +109,20 @@ def run(tier):
         if r["missing"]:
             c = r["case"]
             key = "lost:%s/%s" % (c["cfg"], c["sink"])
-            what = "%s configuration, sink %s, %s thread, %d preceding messages of %d bytes: after the process died by qFatal the log files lack %s" % (
-                c["cfg"], c["sink"], c["thread"], c["n"], c["size"], ", ".join(r["missing"]))
-            viols.append({"key": key, "what": what, "replay": vlib.write_replay(PROP, "%s-%s-%s-%s-%d-%d" % (tier, c["cfg"], c["sink"], c["thread"], c["n"], c["size"]), {"case": c, "missing": r["missing"]})})
+            what = "%s configuration, sink %s, %s thread, record lengths %s (last = fatal): after the process died by qFatal the log files lack %s" % (
+                c["cfg"], c["sink"], c["thread"], c["lens"], ", ".join(r["missing"]))
+            if sum(1 for v in viols if v["key"] == key) < 3:
+                viols.append({"key": key, "what": what, "replay": vlib.write_replay(PROP, "%s-%s-%s-%s-%s" % (tier, c["cfg"], c["sink"], c["thread"], "_".join(map(str, c["lens"]))), {"case": c, "missing": r["missing"]})})
+            else:
+                viols.append({"key": key, "what": what})
     rc, nbad = vlib.report(PROP, viols)
     multi = len([r for r in results if r["files"] > 1])
     cov = {
-        "evaluations": len(results), "distinct_nontrivial": len(set((r["case"]["cfg"], r["case"]["sink"], r["case"]["thread"], r["case"]["n"] > 0, r["case"]["size"] > 16000) for r in results)),
-        "rule": "full product {fluent, nested sub-pipeline, one-line configure(), INI} x {FileSink, RotatingFileSink with huge limit, with a 1-byte limit (the fatal record itself rotates), daily} x "
-                "{main thread, secondary thread} x preceding message counts x payload sizes around QFile's 16 KiB write buffer; each case is one child process that logs through Qt's macros and ends in qFatal; "
+        "evaluations": len(results), "distinct_nontrivial": len(set((r["case"]["cfg"], r["case"]["sink"], r["case"]["thread"], len(r["case"]["lens"]) > 1, max(r["case"]["lens"]) > 16000) for r in results)),
+        "rule": "full product {fluent, nested sub-pipeline, one-line configure(), INI, an earlier file sink that cannot open its file, an earlier file sink on /dev/full (every flush fails), two healthy file sinks, stderr sink first} x "
+                "{FileSink, RotatingFileSink with huge limit, 1-byte limit (every record incl. the fatal one rotates), 40-byte limit (a few records per file), daily} x {main thread, secondary thread} x "
+                "every sequence of 0..K preceding records with lengths from a contiguous small set x every fatal-record length from that set (so that record, file and fatal sizes coincide in every way), plus a "
+                "family around QFile's 16 KiB write buffer; each case is one child process that logs through Qt's macros and ends in qFatal; "
                 "required: the child died by SIGABRT and rotated files (in date/index order) + active file hold every message and the fatal one, in order, one line each; "
                 "distinct_nontrivial = distinct (configuration, sink, thread, has-preceding, crosses-buffer) classes",
         "samples": [r["case"] for r in results[:3]] + [r["case"] for r in results[-2:]],
@@ -102,7 +142,7 @@ def replay(path):
     c = json.load(open(path))["case"]
     root = tempfile.mkdtemp(prefix="verif-c11-", dir="/dev/shm")
     try:
-        r = one(exe, root, (c["cfg"], c["sink"], c["thread"], c["n"], c["size"]))
+        r = one(exe, root, (c["cfg"], c["sink"], c["thread"], tuple(c["lens"])))
     finally:
         shutil.rmtree(root, ignore_errors=True)
     print(json.dumps(r, indent=1))
